@@ -22,6 +22,15 @@ def translate_inertia_tensor(displacement, inertia_tensor, volume):
     return inertia_tensor + volume * (inner * np.eye(3) - outer)
 
 
+def _own_scalar(value):
+    """Return a radius-like value that does not share memory with the caller.
+
+    Plain numbers are returned as they are; a (zero-dimensional) NumPy array is copied,
+    so that later in-place rescaling of the shape cannot write into the caller's array.
+    """
+    return value.copy() if isinstance(value, np.ndarray) else value
+
+
 def _validate_scale(scale):
     """Ensure that a length scale factor is a positive, finite number.
 
